@@ -35,7 +35,7 @@ TRUSTED_BASE_COMMON = [
     "axioms: none (every property theorem prints 'Closed under the global context'; re-checked on every run, and by coqchk -o in the thorough tier)",
     "no OCaml extraction is used (no Extract Constant / Extract Inductive directives): the models are evaluated inside Coq by vm_compute",
     "hand-written Gallina models under coq/theories (layer M), tied to the Go code by the differential correspondence check of this run",
-    "tools/gofacts (constants regenerated from the Go AST into Generated/Params.v)",
+    "tools/gofacts (regenerated from the Go AST on every run: constants -> Generated/Params.v; literal translation of small pure functions -> Generated/Funcs.v; synchronisation census of the functions the concurrency models transcribe -> Generated/Census.v)",
     "Go harness (/verif/harness), its canonicalisation of observations, and the verif-tagged read-only hooks in /repo",
     "lib/vlib.py + props/*.py (case generation, JSON->Coq term printing, direct oracles)",
     "Go toolchain/runtime semantics (memory model, channels, select, sync, time) as documented",
